@@ -27,6 +27,14 @@ variable {α : Type} [Zero α] [One α] [Add α] [Sub α] [Mul α] [Div α] [Neg
 /-- `np.abs` on a scalar -/
 def gabs (x : α) : α := if x < 0 then -x else x
 
+/-- absolute row sum `Σ_c |A[i,c]|` -/
+def rowAbsSum (A : M α) (i : Nat) : α := sumRange A.nc fun c => gabs (A.get i c)
+
+/-- max-row-sum norm `‖A‖∞ = np.linalg.norm(A, np.inf)` (not used by the code; it states the
+    checkable domain of the total-correctness theorem `lyap_total_correct`) -/
+def normInf (A : M α) : α :=
+  (List.range A.nr).foldl (fun acc i => if acc < rowAbsSum A i then rowAbsSum A i else acc) 0
+
 /-! ### Lyapunov doubling -/
 
 /-- lines 75-76: `alpha1 = alpha0 @ alpha0`, `gamma1 = gamma0 + alpha0 @ gamma0 @ alpha0'` -/
@@ -231,7 +239,7 @@ def handle (toks : List String) : String :=
           | .ok X _ _ =>
             let Am : M Rat := matOf A
             let res := maxAbs gabs (madd (msub (mmul (mmul Am X) (mT Am)) X) (matOf B))
-            let rs := (A.map fun r => r.foldl (fun acc x => acc + gabs x) (0 : Rat)).foldl (fun a b => if a < b then b else a) 0
+            let rs : Rat := normInf Am
             s!" res={showApprox res} rowsum={showRat rs}"
           | _ => ""
         lyapShow showRatM showApprox out ++ extra
